@@ -226,10 +226,9 @@ def expected_exchanges(case, spec_str):
 
 def run_exchanges(ctx, cases):
     impl = ctx.harness('client_conns', [exch_line(c) for c in cases], shards=8)
-    both = ctx.coq_eval(fc.REQUIRES, 'eval_client', [exch_coq(c) for c in cases], case_type='list (list (list N) * fin)', per_shard=100)
+    both = fc.coq_pairs(ctx, 'client', [exch_coq(c) for c in cases], 'list (list (list N) * fin)')
     bad = skipped = 0
-    for c, i, b in zip(cases, impl, both):
-        spec = b.partition('|')[2]
+    for c, i, (_, spec) in zip(cases, impl, both):
         want = expected_exchanges(c, spec)
         if want is None:
             skipped += 1
@@ -286,19 +285,18 @@ def expected_client_results(spec_str):
 
 def run_client(ctx, cases):
     impl = ctx.harness('client_conns', [client_line(c) for c in cases], shards=8)
-    both = ctx.coq_eval(fc.REQUIRES, 'eval_client', [client_coq(c) for c in cases],
-                        case_type='list (list (list N) * fin)', per_shard=100)
+    both = fc.coq_pairs(ctx, 'client', [client_coq(c) for c in cases], 'list (list (list N) * fin)')
     bad = 0
-    for c, i, b in zip(cases, impl, both):
-        model, _, spec = b.partition('|')
-        want_spec, want_model = expected_client_results(spec), expected_client_results(model)
+    for c, i, (model, spec) in zip(cases, impl, both):
+        want_spec = expected_client_results(spec)
+        want_model = expected_client_results(model) if model is not None else want_spec
         if i != want_spec:
             bad += 1
             if bad == 1:
                 def fails(cs):
                     ii = ctx.harness('client_conns', [client_line(x) for x in cs])
-                    bb = ctx.coq_eval(fc.REQUIRES, 'eval_client', [client_coq(x) for x in cs], case_type='list (list (list N) * fin)')
-                    return [a != expected_client_results(y.partition('|')[2]) for a, y in zip(ii, bb)]
+                    bb = fc.coq_pairs(ctx, 'client', [client_coq(x) for x in cs], 'list (list (list N) * fin)')
+                    return [a != expected_client_results(y[1]) for a, y in zip(ii, bb)]
 
                 def cands(x):
                     for k in range(len(x)):
@@ -309,7 +307,7 @@ def run_client(ctx, cases):
                             yield x[:k] + [([b''.join(chunks)], fin)] + x[k + 1:]
                 small = vlib.shrink_batch(c, fails, cands)
                 i2 = ctx.harness('client_conns', [client_line(small)])[0]
-                b2 = ctx.coq_eval(fc.REQUIRES, 'eval_client', [client_coq(small)], case_type='list (list (list N) * fin)')[0]
+                b2 = '|' + fc.coq_pairs(ctx, 'client', [client_coq(small)], 'list (list (list N) * fin)')[0][1]
                 ctx.violation('client.connection-results-differ-from-spec',
                               f'client over {len(small)} consecutive connections: request results {i2} but each connection\'s own stream prescribes {expected_client_results(b2.partition("|")[2])} '
                               '(bytes or parser state of an earlier connection leak into a later one?)',
@@ -328,8 +326,15 @@ def run(ctx):
     ctx.prove()
     if ctx.tier == 'thorough':
         ctx.coqchk()
-    if not ctx.build_harness() or not models_ok:
+    if not ctx.build_harness():
         return
+    fc.MODE['models'] = models_ok
+    if not models_ok:
+        # a Gen table could not be regenerated / a model file does not compile: the implementation is still judged
+        # against the Spec alone (Spec/SpecEval.v imports no Gen file and no model), so a violation keeps its replay
+        if not ctx.build_models(['Spec.SpecEval']):
+            return
+        ctx.notes.append('model not evaluable: correspondence families judged against the Spec only')
     client_cases = None
     server_replay = None
     exchange_cases = None
